@@ -38,7 +38,7 @@ T = {
          'The space is finite and enumerated completely; nine collisions at development snapshots are recorded as known findings.',
          'Trusted: nothing beyond Python set/dict semantics.', '3/C06'),
  'C07': ('exploration',
-         'complete enumeration of (README release protocol x core packet x boundary field values) against a release table and encoder transcribed from the protocol documentation',
+         'complete enumeration of (README release protocol x core packet x boundary field values) against a release table and encoder transcribed from the protocol documentation, through fresh, re-assigned and long-lived contexts and through fresh and long-lived packet objects',
          'pyCraft bytes vs reference bytes, reference bytes decoded by pyCraft, and reactor id lookup, for every listed release.',
          'Trusted: vf/refproto/releases.py, transcribed by hand; entries that could not be established with confidence are left out and listed as not judged.', '3/C07'),
  'C08': ('model_checking',
